@@ -139,6 +139,20 @@ CLAIMED = {
         design_ref="DESIGN.md section 5 C16",
         note="Trusted: TLC, the adapter's spelling function and its projection of Selector.seq into abstract parts. A descendant "
              "combinator that the DOM records next to a comment/another combinator is collapsed before comparing with the source."),
+    "C05": dict(
+        technique="TLA+ universal tokenizer monitor (LexContract: offsets from line/col by counting line feeds, tiling, progress, "
+                  "value = CSS-escape-decoded span with a left-to-right decoder written in TLA+, full-sheet completion and EOF rules), "
+                  "input spaces and token-pair sequences with by-construction expectations enumerated by TLC (Lex.tla); every row "
+                  "tokenised by the real Tokenizer; TLC trace monitor",
+        text="Bounded exhaustive + stratified: every string of <=3 characters over 28 (quick) / 43 (thorough) character classes x "
+             "fullsheet on/off, every string of <=4/5 over the escape alphabet, a stratified code-point sweep, slices of the "
+             "repository's sheets with seeded mutations; every pair of the 77 grammar tokens x every separator the spec declares "
+             "unambiguous, '@charset ' at offset 0, 144 truncated-token completions; error positions of damaged sheets. TLC "
+             "recomputes every token's span from its (line, col) and checks tiling, progress, decoded values, types and values of "
+             "generated sequences, exactly one EOF.",
+        design_ref="DESIGN.md section 5 C05",
+        note="Trusted: TLC, the TLA+ escape decoder, one concrete code point per character class. Simple escapes may be kept or "
+             "resolved; the position of the EOF token is not judged (statement silent)."),
 }
 PENDING = "check not built yet in this round (see DESIGN.md section 10 build order); no claim is made"
 NOT_APPLICABLE = {}
